@@ -23,11 +23,14 @@ pub struct Counting;
 static LIVE: AtomicUsize = AtomicUsize::new(0);
 static PEAK: AtomicUsize = AtomicUsize::new(0);
 static TOTAL: AtomicUsize = AtomicUsize::new(0);
+/// counting is switched on only in C06's single-threaded worker processes (shared atomic
+/// counters would serialise the 16 explorer threads of every other check)
+static COUNTING: std::sync::atomic::AtomicBool = std::sync::atomic::AtomicBool::new(false);
 
 unsafe impl std::alloc::GlobalAlloc for Counting {
     unsafe fn alloc(&self, l: std::alloc::Layout) -> *mut u8 {
         let p = std::alloc::System.alloc(l);
-        if !p.is_null() {
+        if !p.is_null() && COUNTING.load(Ordering::Relaxed) {
             let live = LIVE.fetch_add(l.size(), Ordering::Relaxed) + l.size();
             TOTAL.fetch_add(l.size(), Ordering::Relaxed);
             PEAK.fetch_max(live, Ordering::Relaxed);
@@ -36,17 +39,20 @@ unsafe impl std::alloc::GlobalAlloc for Counting {
     }
     unsafe fn dealloc(&self, p: *mut u8, l: std::alloc::Layout) {
         std::alloc::System.dealloc(p, l);
-        LIVE.fetch_sub(l.size(), Ordering::Relaxed);
+        if COUNTING.load(Ordering::Relaxed) {
+            // saturating: blocks allocated before counting was switched on
+            let _ = LIVE.fetch_update(Ordering::Relaxed, Ordering::Relaxed, |x| Some(x.saturating_sub(l.size())));
+        }
     }
     unsafe fn realloc(&self, p: *mut u8, l: std::alloc::Layout, new: usize) -> *mut u8 {
         let q = std::alloc::System.realloc(p, l, new);
-        if !q.is_null() {
+        if !q.is_null() && COUNTING.load(Ordering::Relaxed) {
             if new >= l.size() {
                 let live = LIVE.fetch_add(new - l.size(), Ordering::Relaxed) + (new - l.size());
                 TOTAL.fetch_add(new - l.size(), Ordering::Relaxed);
                 PEAK.fetch_max(live, Ordering::Relaxed);
             } else {
-                LIVE.fetch_sub(l.size() - new, Ordering::Relaxed);
+                let _ = LIVE.fetch_update(Ordering::Relaxed, Ordering::Relaxed, |x| Some(x.saturating_sub(l.size() - new)));
             }
         }
         q
@@ -383,6 +389,7 @@ fn targets_for(f: Family, tier: Tier, nt: usize) -> Vec<usize> {
 
 /// `mc C06 --worker <tier> <family-index> <share> <nshares> <stack-kib> <progress-file>`
 pub fn worker(args: &[String]) -> i32 {
+    COUNTING.store(true, Ordering::Relaxed);
     let tier = if args[0] == "thorough" { Tier::Thorough } else { Tier::Quick };
     let fi: usize = args[1].parse().unwrap();
     let share: u64 = args[2].parse().unwrap();
